@@ -17,10 +17,10 @@ class Cutoff(Exception):
     """prefix enumeration reached the split depth"""
 
 class Entry:
-    __slots__ = ('cond', 'choice', 'alt', 'alt_model', 'pushed', 'kind')
+    __slots__ = ('cond', 'choice', 'alt', 'alt_model', 'pushed', 'kind', 'forked')
     def __init__(self, cond, choice, alt, alt_model, pushed, kind='br'):
         self.cond = cond; self.choice = choice; self.alt = alt; self.alt_model = alt_model
-        self.pushed = pushed; self.kind = kind
+        self.pushed = pushed; self.kind = kind; self.forked = alt or kind == 'forced'
 
 class Ctx:
     def __init__(self, timeout_ms=20000, seed=0):
@@ -38,6 +38,7 @@ class Ctx:
         self._vars = {}
         self.assert_queries = 0
         self.decisions_on_path = 0
+        self.nfork = 0
 
     # ---- variables (names are deterministic, so re-execution rebuilds identical terms) -------
     def bv(self, name, bits):
@@ -85,6 +86,7 @@ class Ctx:
         pos = self.pos
         if pos < len(self.trail):
             e = self.trail[pos]; self.pos = pos + 1
+            if e.forked: self.nfork += 1
             return e.choice
         self.decisions_on_path += 1
         fp = self.forced_prefix
@@ -92,6 +94,7 @@ class Ctx:
             choice = fp[pos][1]
             self.solver.push(); self.solver.add(cond if choice else z3.Not(cond))
             self.trail.append(Entry(cond, choice, False, None, True, 'forced'))
+            self.nfork += 1
             self.pos = pos + 1
             self.model = None
             return choice
@@ -109,6 +112,7 @@ class Ctx:
             am = self.solver.model()
             self.solver.push(); self.solver.add(cond if v else z3.Not(cond))
             self.trail.append(Entry(cond, v, True, am, True))
+            self.nfork += 1
         else:
             self.trail.append(Entry(cond, v, False, None, False))
         self.pos = pos + 1
@@ -160,6 +164,7 @@ class Ctx:
     # ---- path bookkeeping --------------------------------------------------------------------
     def begin_path(self):
         self.pos = 0
+        self.nfork = 0
         self.inputs = []
         self.decisions_on_path = 0
 
